@@ -278,6 +278,49 @@ def _ob_section_history(first: int, kind: int, v: int, via_props: bool) -> bool:
     return [p.name for p in fresh.props] == ["p1"] and _same(list(fresh.props["p1"].values), [val])
 
 
+def _ob_two_handles(o1: int, o2: int, o3: int, v: int) -> bool:
+    """
+    pre: 0 <= o1 < 7 and 0 <= o2 < 7 and 0 <= o3 < 7
+    post: __return__
+    """
+    f, sec = _sec()
+    a = sec.create_property("p", [1, 2, 3])          # the KEPT handle; it has been read from
+    if not _same(list(a.values), [1, 2, 3]):
+        return False
+    want = [1, 2, 3]
+    for o in (o1, o2, o3):
+        b = sec.props["p"]                            # another handle of the same property
+        if o == 0:
+            a.values = [v, 8]
+            want = [v, 8]
+        elif o == 1:
+            b.values = [v, 8]
+            want = [v, 8]
+        elif o == 2:
+            sec["p"] = [v, 8]
+            want = [v, 8]
+        elif o == 3:
+            a.extend_values([9])
+            want = want + [9]
+        elif o == 4:
+            b.extend_values([9])
+            want = want + [9]
+        elif o == 5:
+            a.values = None
+            want = []
+        else:
+            b.values = None
+            want = []
+        # what was stored last is what every access path reads
+        if not (_same(list(a.values), want) and _same(list(sec.props["p"].values), want)):
+            return False
+    fresh = f.sections["sec"]
+    got = fresh["p"]                                   # dict-style read: a single value comes back bare
+    if not isinstance(got, list):
+        got = [got]
+    return _same(list(fresh.props["p"].values), want) and _same(got, want)
+
+
 def _ob_optional_attrs(ai: int, vi: int, wi: int) -> bool:
     """
     pre: 0 <= ai < 7 and 0 <= vi < 6 and 0 <= wi < 6
@@ -376,6 +419,11 @@ OBLIGATIONS = [
        functions=["nixio.section.Section.__delitem__", "nixio.section.Section.__setitem__",
                   "nixio.section.Section.create_property", "nixio.container.Container.__delitem__"],
        replay=lambda a: _real("_ob_section_history", a)),
+    Ob("values_through_two_handles", _ob_two_handles, timeout=900,
+       functions=[_P + "values", _P + "extend_values", _P + "delete_values", "nixio.section.Section.__setitem__"],
+       replay=lambda a: _real("_ob_two_handles", a),
+       outside="histories of three operations (assign / extend / clear through the kept handle, through a new "
+               "handle, dict-style) on one integer property"),
     Ob("optional_attributes", _ob_optional_attrs, timeout=900,
        functions=[_P + "unit", _P + "uncertainty", _P + "definition", _P + "reference",
                   _P + "dependency", _P + "dependency_value", _P + "value_origin"],
